@@ -30,7 +30,7 @@ class Failure:
 
 
 class Outcome:
-    __slots__ = ('failures', 'features', 'nontrivial', 'evals', 'excluded')
+    __slots__ = ('failures', 'features', 'nontrivial', 'evals', 'excluded', 'nt_keys')
 
     def __init__(self):
         self.failures = []
@@ -38,6 +38,7 @@ class Outcome:
         self.nontrivial = False
         self.evals = 0
         self.excluded = 0
+        self.nt_keys = set()   # optional finer identity of non-trivial executions within the case
 
     def fail(self, oracle, sig, msg=''):
         self.failures.append(Failure(oracle, sig, msg))
@@ -237,12 +238,17 @@ class Acc:
         for f in out.features:
             self.features[f] += 1
         size = len(canon(case))
-        if out.nontrivial:
+        if out.nontrivial or out.nt_keys:
             h = sha(case)
-            if h not in self.nontrivial:
+            new = h not in self.nontrivial
+            if out.nt_keys:
+                keys = {hashlib.sha1((h + '/' + str(k)).encode()).hexdigest() for k in out.nt_keys}
+                new = not (keys <= self.nontrivial)
+                self.nontrivial |= keys
+            else:
                 self.nontrivial.add(h)
-                if len(self.samples) < 40:
-                    self.samples.append((size, case))
+            if new and len(self.samples) < 40:
+                self.samples.append((size, case))
         for f in out.failures:
             k = f.key()
             self.bucket_counts[k] += 1
